@@ -34,7 +34,7 @@ REQUIRED = {"capture.nothing_reaches_real_stream": {"quick": 1200, "thorough": 3
             "run.streams_restored_at_end": {"quick": 600, "thorough": 30000}}
 REQUIRED_SEEN = {"switches": ["out1err1log1", "out1err1log0", "out1err0log1", "out1err0log0", "out0err1log1", "out0err1log0",
                               "out0err0log1", "out0err0log0"],
-                 "log_habit": ["plain", "flush", "bulk"], "setup_logging_from_hook": ["DEBUG", "WARNING"],
+                 "log_habit": ["plain", "flush", "bulk", "peek"], "setup_logging_from_hook": ["DEBUG", "WARNING"],
                  "capture_switched_at_runtime": ["per scenario"],
                  "raising_hook_decoration": ["capture"], "capture_output_block_left_by": ["normal exit", "ValueError", "AssertionError", "KeyboardInterrupt", "SystemExit"], "passthrough_logging_project": ["environment_without_before_all"], "logging_filter_shape": ["include_and_exclude", "include_only", "exclude_only"]}
 NSHARDS = {"quick": 16, "thorough": 16}
@@ -134,7 +134,7 @@ def run_case(lab, mon, case, rng, sample=False):
 
     log_habit = case.get("log_habit")        # None | "flush" | "bulk"
 
-    def emit(kind, sid, scen):
+    def emit(kind, sid, scen, context=None):
         printed.append((kind, sid, scen))
         sys.stdout.write(marker(kind, sid, scen, "out") + "\n")
         sys.stderr.write(marker(kind, sid, scen, "err") + "\n")
@@ -145,6 +145,16 @@ def run_case(lab, mon, case, rng, sample=False):
             # the usual "make sure everything is written" idiom of user code: must not lose what was captured
             for h in logging.getLogger().handlers:
                 h.flush()
+        elif log_habit == "peek" and context is not None:
+            # user code that LOOKS at what was captured so far (context.log_capture.getvalue(), context.stdout_capture): looking
+            # takes nothing away from later reports
+            for attr in ("log_capture", "stdout_capture", "stderr_capture"):
+                cap = getattr(context, attr, None)
+                if cap is not None:
+                    try:
+                        cap.getvalue()
+                    except Exception:
+                        pass
         elif log_habit == "bulk" and kind == "M":
             # a chatty step: more records in one scenario than a buffering handler's default capacity (1000)
             lg = logging.getLogger("bvm.c18.bulk")
@@ -154,7 +164,7 @@ def run_case(lab, mon, case, rng, sample=False):
     def step_plugin(state, context, text):
         sc = getattr(context, "scenario", None)
         sid = text.split(" ")[0]
-        emit("M", sid, sc.name if sc is not None else "?")
+        emit("M", sid, sc.name if sc is not None else "?", context)
         if text in nested and not state.nesting:
             state.nesting = True
             try:
@@ -196,6 +206,7 @@ def run_case(lab, mon, case, rng, sample=False):
     elif flt_inc or flt_exc:
         mon.seen("logging_filter_shape", "include_only" if flt_inc else "exclude_only")
     uncaptured = set()
+    hook_logged = []
 
     def hook_plugin(state, context, name, elem, tag):
         if name == "before_all" and n_user_handlers:
@@ -215,10 +226,16 @@ def run_case(lab, mon, case, rng, sample=False):
             uncaptured.add(elem.name)
         if runtime_switch and name == "after_scenario":
             context.config.stdout_capture, context.config.stderr_capture, context.config.log_capture = cap_out, cap_err, cap_log
+        if name in ("before_scenario", "after_scenario") and name in (case.get("capture_decorated_hooks") or ()):
+            # a hook decorated with @capture / @capture(level=ERROR) that logs at every level: the decorator prints what it
+            # captured at ITS level (the level given to the decorator, else the configured logging level)
+            for lv in ("DEBUG", "INFO", "WARNING", "ERROR"):
+                logging.getLogger("bvm.hook").log(getattr(logging, lv), "[H|%s|%s|%s]", name, elem.name, lv)
+            hook_logged.append((name, elem.name))
         if name in ("before_step", "after_step"):
             sc = getattr(context, "scenario", None)
             sid = elem.name.split(" ")[0]
-            emit("B" if name == "before_step" else "A", sid, sc.name if sc is not None else "?")
+            emit("B" if name == "before_step" else "A", sid, sc.name if sc is not None else "?", context)
             if ki_hook and ki_hook == [name, sc.name if sc is not None else None, elem.name]:
                 raise KeyboardInterrupt()
 
@@ -262,6 +279,22 @@ def run_case(lab, mon, case, rng, sample=False):
                         mon.check("report.nothing_from_other_scenarios", not foreign,
                                   lambda: W(scenario=s.name, step=step.name, capture_switched_off_for=sorted(uncaptured)[:6], foreign=foreign[:4]))
         return
+    if hook_logged and not any(a.startswith("--logging-filter") for a in args) and hook_level is None:
+        raised_in = set((f[1], f[2]) for f in obs.faults_fired)
+        shown = {}
+        for hname, sname, lv in re.findall(r"\[H\|(\w+)\|([^|\]]*)\|(\w+)\]", obs.real_out.getvalue()):
+            shown.setdefault((hname, sname), []).append(lv)
+        order = ["DEBUG", "INFO", "WARNING", "ERROR"]
+        for (hname, sname) in hook_logged:
+            if (hname, sname) in raised_in:
+                continue
+            # (lab: the decorated hook names are sorted and alternate @capture / @capture(level=ERROR): after_scenario, before_scenario)
+            level = logging.ERROR if hname == "before_scenario" else eff_level
+            want_lv = [lv for lv in order if getattr(logging, lv) >= level]
+            got_lv = shown.get((hname, sname), [])
+            mon.check("decorator.capture_prints_records_at_its_level", got_lv == want_lv,
+                      lambda: W(hook=hname, scenario=sname, decorator="@capture(level=ERROR)" if hname == "before_scenario" else "@capture",
+                                configured_level=logging.getLevelName(eff_level), printed=got_lv, want=want_lv))
     # ---- (b') at the end of the run the process streams are the real ones again --------------------
     mon.check("run.streams_restored_at_end", obs.stream_after[0] is obs.real_out and obs.stream_after[1] is obs.real_err,
               lambda: W(stdout_is_real=obs.stream_after[0] is obs.real_out, stderr_is_real=obs.stream_after[1] is obs.real_err,
@@ -458,7 +491,9 @@ def run(spec, mon):
         if i % 11 == 6:
             case["runtime_switch"] = True
             mon.seen("capture_switched_at_runtime", "per scenario")
-        if i % 7 == 3:
+        if i % 7 == 5:
+            case["log_habit"] = "peek"
+        elif i % 7 == 3:
             case["log_habit"] = "flush"
         elif i % 23 == 5:
             case["log_habit"] = "bulk"
